@@ -156,6 +156,8 @@ func c17History(k *core.Case) {
 	var hist []string
 	prev := -1
 	prev2 := -1
+	var lastAcc []byte // the last genuine datagram the long-lived object accepted
+	var lastAccInit bool
 	for st := 0; st < n; st++ {
 		op := k.R.Intn(nOps)
 		if prev == opUT && k.R.Chance(2, 3) {
@@ -185,7 +187,37 @@ func c17History(k *core.Case) {
 				return
 			}
 			presented = g
-			if op == opUT {
+			if op == opUT && lastAcc != nil && k.R.Chance(1, 3) {
+				// forgeries derived from the LAST datagram this object accepted, keeping its checksum octets: what an
+				// on-path attacker holds after seeing one genuine message
+				recvInit = lastAccInit
+				la := lastAcc
+				icv := s.ICVLen()
+				f := append([]byte{}, la...)
+				switch k.R.Intn(5) {
+				case 0: // replay under another Message ID
+					f[20+k.R.Intn(4)] ^= byte(1 + k.R.Intn(255))
+				case 1: // other exchange type / flags
+					f[18+k.R.Intn(2)] ^= byte(1 << uint(k.R.Intn(8)))
+				case 2: // IV changed (CBC: rewrites the first plaintext block at will)
+					f[32+k.R.Intn(16)] ^= byte(1 + k.R.Intn(255))
+				case 3: // ciphertext changed
+					if len(f)-icv > 48 {
+						f[48+k.R.Intn(len(f)-icv-48)] ^= byte(1 + k.R.Intn(255))
+					} else {
+						f[32] ^= 1
+					}
+				default: // the accepted checksum grafted onto a different genuine message of the same direction
+					g2, _, _ := libProtect(m, peer, !recvInit)
+					if len(g2) > icv {
+						f = append(append([]byte{}, g2[:len(g2)-icv]...), la[len(la)-icv:]...)
+					} else {
+						f[33] ^= 2
+					}
+				}
+				presented = f
+				k.Count("forgeries_keeping_the_last_accepted_checksum", 1)
+			} else if op == opUT {
 				switch k.R.Intn(6) {
 				case 0:
 					presented = append([]byte{}, g[:k.R.Intn(len(g))]...)
@@ -277,6 +309,7 @@ func c17History(k *core.Case) {
 				k.Violate("history-dependence", "genuine-rejected-by-long-lived", "genuine message from a fresh peer not accepted / differs", w)
 				return
 			}
+			lastAcc, lastAccInit = append([]byte{}, presented...), recvInit
 		case opUT:
 			if !rl.err && len(presented) > 16 && presented[16] == abs.PSK && !bytes.Equal(presented, nil) {
 				k.Violate("accepted", "forged-accepted-by-long-lived", "forged message accepted", w)
@@ -325,5 +358,6 @@ func c17(c *core.Ctx) {
 			req = append(req, "bigram_"+opNames[a]+">"+opNames[b])
 		}
 	}
+	req = append(req, "forgeries_keeping_the_last_accepted_checksum")
 	c.Require(req...)
 }
